@@ -70,8 +70,15 @@ impl Cfg {
         c.strict_validate(hist & 3 != 3);
         c.generate_name_section(self.names);
         c.generate_producers_section(self.producers);
-        c.preserve_code_transform(self.code_transform);
-        c.generate_dwarf(self.dwarf);
+        if hist & 32 != 0 {
+            // the code-transform switch set after DWARF generation: DWARF on
+            // with the transform explicitly off is a reachable configuration
+            c.generate_dwarf(self.dwarf);
+            c.preserve_code_transform(self.code_transform);
+        } else {
+            c.preserve_code_transform(self.code_transform);
+            c.generate_dwarf(self.dwarf);
+        }
         c.only_stable_features(self.only_stable);
         c.generate_synthetic_names_for_anonymous_items(self.synthetic_names);
         c
